@@ -763,47 +763,33 @@ def c18(tier, replay_case=None):
         print("REPLAY-RESULT violation class=%s detail=%s" % v)
         return 1
 
-    # exhaustive single-byte truncation of the smallest package through the real decoder
+    # in-process fault sweep through the real decoder (helper binary): truncations of every
+    # package (every byte in thorough, strided in quick), every bit of the first and last 64
+    # bytes, one bit of every k-th byte in between
     trunc_done = 0
+    flip_done = 0
     trunc_vio = []
     small = min(packages, key=lambda k: len(packages[k]))
-    stride = 1 if tier == "thorough" else 29
-    positions = list(range(0, len(packages[small]), stride))
-
-    def trunc(k):
-        r = {"index": -1, "program": small, "fault": ["truncate", k], "consumer": "decoder"}
-        res = execute(r)
-        v = classify(r, res)
-        if v is None and res["rc"] == 0:
-            v = ("truncation-accepted", "package truncated at byte %d of %d was accepted by the decoder" % (k, len(packages[small])))
-        return r, res, v
-
-    # bit-flip sweep through the decoder: every bit of the first and last 64 bytes (lengths,
-    # ids, end of the encoding, integrity trailer) and one seeded bit of every k-th byte
-    nsmall = len(packages[small])
-    frng = tb.stream(s, "C18", 0, "flipsweep")
-    flips = []
+    stride = 1 if tier == "thorough" else 13
+    fstride = 1 if tier == "thorough" else 17
     for pname in packages:
-        n_p = len(packages[pname])
-        flips += [(pname, k, b) for k in list(range(min(64, n_p))) + list(range(max(0, n_p - 64), n_p)) for b in range(8)]
-    flips += [(small, k, frng.randrange(8)) for k in range(64, nsmall - 64, 7 if tier == "thorough" else 61)]
-
-    def flip(kb):
-        r = {"index": -2, "program": kb[0], "fault": ["bitflip", kb[1], kb[2]], "consumer": "decoder"}
-        res = execute(r)
-        return r, res, classify(r, res)
-
-    flip_done = 0
-    from concurrent.futures import ThreadPoolExecutor
-    with ThreadPoolExecutor(JOBS) as ex:
-        for r, res, v in ex.map(trunc, positions):
-            trunc_done += 1
-            if v is not None:
-                trunc_vio.append((r, res, v))
-        for r, res, v in ex.map(flip, flips):
-            flip_done += 1
-            if v is not None:
-                trunc_vio.append((r, res, v))
+        pkgpath = os.path.join(base, pname + ".dora-package")
+        p = run_group([pkgrt, "--sweep", pkgpath, str(stride if pname == small else stride * 7), str(fstride)], timeout=1200, cwd=base)
+        text = p.stdout.decode(errors="replace")
+        m = re.search(r"SWEEP truncations=(\d+) flips=(\d+) offending=(\d+)", text)
+        if not m:
+            harness_error("decoder sweep failed for %s: rc=%s %s" % (pname, p.returncode, p.stderr.decode(errors="replace")[-300:]))
+        trunc_done += int(m.group(1))
+        flip_done += int(m.group(2))
+        for line in text.splitlines():
+            parts = line.split()
+            if parts and parts[0] in ("ACCEPTED", "PANIC"):
+                fault = ["truncate", int(parts[2])] if parts[1] == "truncate" else ["bitflip", int(parts[2]), int(parts[3])]
+                r = {"index": -1, "program": pname, "fault": fault, "consumer": "decoder"}
+                cls = "corruption-accepted" if parts[0] == "ACCEPTED" else "panic:decoder"
+                if fault[0] == "truncate" and parts[0] == "ACCEPTED":
+                    cls = "truncation-accepted"
+                trunc_vio.append((r, None, (cls, "the decoder %s a damaged package (%s)" % ("accepted" if parts[0] == "ACCEPTED" else "panicked on", fault))))
 
     done = pool_run(make, execute, classify, max(5, budget - (time.time() - t0)), stop_on_violation=False)
     fired = {}
@@ -859,7 +845,7 @@ def c18(tier, replay_case=None):
                 "distinct non-trivial = distinct (package, fault, consumer) whose outcome was 'refused cleanly' or 'accepted with identical artifact'",
         "samples": samples,
         "exhaustive": False,
-        "truncation_sweep": {"package": small, "bytes": len(packages[small]), "stride": stride, "positions": trunc_done},
+        "truncation_sweep": {"packages": sorted(packages), "stride_smallest_package": stride, "positions": trunc_done},
         "bitflip_sweep": {"packages": sorted(packages), "every_bit_of_first_and_last_64_bytes_of_every_package": True, "flips": flip_done},
         "fault_kinds_fired": fired,
         "outcomes": outcome,
